@@ -574,6 +574,17 @@ def gen_C08(rng, n, exhaustive_prefix=True):
             for dec in ('g1.from_slice', 'g1.from_uncompressed', 'g1.from_compressed', 'g2.from_slice', 'g2.from_uncompressed', 'g2.from_compressed'):
                 z = rng.choice([bs, bytes(ln), b'\xff' * ln, b'\x04' + bs[1:] if ln else bs, b'\x02' + bs[1:] if ln else bs])
                 out.append((f'{dec}:len{ln}', f'{dec} {hb(z)}'))
+    # special coordinates at the exact lengths: all-zero ("is (0,0) the point at infinity?"), one coordinate zero,
+    # all-ones, a valid coordinate next to a zero one
+    for g, K, A, cl in (('g1', K1, P, 32), ('g2', K2, Q, 64)):
+        xz, yz = bytes(cl), bytes(cl)
+        xa, ya = bytes.fromhex(K.enc(A[0])), bytes.fromhex(enc_aff(K, A))[cl:]
+        for lab, x, y in (('zero,zero', xz, yz), ('x,zero', xa, yz), ('zero,y', xz, ya), ('ff,ff', b'\xff' * cl, b'\xff' * cl)):
+            out.append((f'{g}.from_slice:special:{lab}', f'{g}.from_slice {hb(x + y)}'))
+            out.append((f'{g}.from_uncompressed:special:{lab}', f'{g}.from_uncompressed 04{hb(x + y)}'))
+        for pre in (2, 3):
+            out.append((f'{g}.from_compressed:special:zero', f'{g}.from_compressed {pre:02x}{hb(xz)}'))
+            out.append((f'{g}.from_compressed:special:ff', f'{g}.from_compressed {pre:02x}{hb(bytes([255]) * cl)}'))
     for _ in range(n):
         g, K, G = rng.choice([('g1', K1, P1), ('g2', K2, P2)])
         A = pt_mul(K, rng.randrange(1, r), G)
